@@ -14,6 +14,8 @@ inductive Cl (inp : RunInput) : Name → Prop
   | ofSetup {t d} : Cl inp t → MayRun inp t → d ∈ inp.setup t → Cl inp d
   | ofRes {c d} : Cl inp c →
       (d ∈ (inp.calcRes c).tasks ∨ d ∈ (inp.calcRes c).files ∨ d ∈ (inp.calcRes c).calcs) → Cl inp d
+  | ofResFail {c d} : Cl inp c →      -- what `c` returned before its execution failed is delivered too (`deliverF`)
+      (d ∈ (inp.calcResFail c).tasks ∨ d ∈ (inp.calcResFail c).files ∨ d ∈ (inp.calcResFail c).calcs) → Cl inp d
 
 def pcCl (inp : RunInput) (n : Name) : PC → Prop
   | .calcIter todo => ∀ d ∈ todo, Cl inp d
@@ -102,6 +104,12 @@ theorem deliver_ncl {inp : RunInput} {n : Name} {nd : Node} (pst : RS) {p : Name
   · exact addDeps_ncl h (fun d hd => Cl.ofRes hp hd)
   · exact h
 
+theorem deliverF_ncl {inp : RunInput} {n : Name} {nd : Node} (ex : Bool) (pst : RS) {p : Name} (h : NCl inp n nd)
+    (hp : Cl inp p) : NCl inp n (deliverF inp ex pst p nd) := by
+  unfold deliverF; split
+  · exact addDeps_ncl h (fun d hd => Cl.ofResFail hp hd)
+  · exact h
+
 theorem parentStatus_ncl {inp : RunInput} {n : Name} {nd : Node} (pst : RS) (p : Name) (h : NCl inp n nd) :
     NCl inp n (parentStatus pst p nd) :=
   ⟨h.self, h.dt, h.dc, h.pt, h.pcalc, h.st, h.sc, h.pcl, h.run⟩
@@ -118,7 +126,7 @@ theorem absorbDone_ncl {inp : RunInput} {s : Sys} {n : Name} (isCalc : Bool) :
     · exact ih nd h (fun d hd => hds d (by simp [hd]))
     · apply ih _ _ (fun d hd => hds d (by simp [hd]))
       split
-      · exact deliver_ncl _ (parentStatus_ncl _ _ h) (hds a (by simp))
+      · exact deliverF_ncl _ _ (deliver_ncl _ (parentStatus_ncl _ _ h) (hds a (by simp))) (hds a (by simp))
       · exact parentStatus_ncl _ _ h
 
 theorem waitNode_ncl {inp : RunInput} {s : Sys} {n : Name} {nd : Node} (ds : List Name) (isCalc : Bool) (pc' : PC)
@@ -135,6 +143,13 @@ theorem wokenNode_ncl {inp : RunInput} {n : Name} {nd : Node} (pst : RS) {p : Na
   · apply deliver_ncl _ _ hp
     exact ⟨h.self, h.dt, h.dc, h.pt, h.pcalc, h.st, h.sc, h.pcl, h.run⟩
   · exact ⟨h.self, h.dt, h.dc, h.pt, h.pcalc, h.st, h.sc, h.pcl, h.run⟩
+
+theorem wokenF_ncl {inp : RunInput} {n : Name} {nd : Node} (s : Sys) (pst : RS) {p : Name} (h : NCl inp n nd)
+    (hp : Cl inp p) : NCl inp n (wokenF inp s pst p nd) := by
+  unfold wokenF
+  split
+  · exact deliverF_ncl _ _ (wokenNode_ncl pst h hp) hp
+  · exact wokenNode_ncl pst h hp
 
 theorem addWaiting_ncl {inp : RunInput} {n : Name} {nd : Node} (m : Name) (h : NCl inp n nd) :
     NCl inp n (nd.addWaiting m) := by
@@ -317,7 +332,7 @@ theorem dtick_minv {inp : RunInput} {s s' : Sys} {perm : List Name} (h : MInv in
 theorem wakeOne_ncl {inp : RunInput} {s : Sys} {pst : RS} {p w : Name} {nd : Node}
     (h : ∀ k y, s.nodes k = some y → NCl inp k y) (hw : s.nodes w = some nd) (hp : Cl inp p) :
     ∀ k y, (wakeOne inp s pst p w nd).nodes k = some y → NCl inp k y := by
-  have := ncl_setNode h (wokenNode_ncl pst (h w nd hw) hp)
+  have := ncl_setNode h (wokenF_ncl s pst (h w nd hw) hp)
   unfold wakeOne; split
   · exact this
   · exact this
